@@ -450,3 +450,108 @@ def sweep_piece(cfgd, pitch=None):
 def rechannel(rel, ch):
     """the same track written on channel `ch` (every message, waits included)"""
     return [(m[0], ch) + tuple(m[2:]) for m in rel]
+
+
+# ----------------------------------------------------------------------------- pieces with REPEATED bars (seeded change C03_agent8)
+# C03 quantifies over all pieces x all partitions x all configurations.  With an un-fused attribute and running values on, the tokens of a
+# call depend on the running attributes CARRIED into it (a trk_/val_/vel_ token is written only when the attribute differs from the preceding
+# note's), so two calls with the SAME content reached under DIFFERENT carried values must still be tokenised each on its own.  Random pieces
+# never hold two calls of identical content; these do: bars are drawn from a few templates (one of them empty), laid out in plans with
+# repeats (A B B, A B B B, A B A B, A E B E C, …), notes from small alphabets of values / velocities so that the attribute carried over a call
+# boundary is sometimes the same as and sometimes different from the first note of the next call.
+
+REPEAT_SIGS = [(4, 4), (4, 4), (3, 4), (2, 4), (6, 8), (3, 8)]
+REPEAT_PLANS = ["ABB", "ABBB", "ABAB", "ABABAB", "AEBEC", "AEEB", "EAEA", "ABCB", "ABBA", "AABB", "ABCABC", "EEAEE", "ABEB", "AEAEB"]
+
+
+def gen_repeat_piece(rng, n_tracks=None, pitch_range=(55, 70), values=None, ppqn=24):
+    """a piece whose bars repeat: result shape of gens.gen_piece plus `plan` (one template letter per bar; E = the empty bar) and `sig_of_bar`.
+    A template fixes the signature and the notes (offsets inside the bar, every note ends inside the bar) of every track; a later bar with the
+    same letter is a copy.  Signature events stand where the signature changes (and on tick 0)."""
+    values = list(values if values is not None else TK_DEFAULT_VALUES)
+    if n_tracks is None:
+        n_tracks = rng.choice([1, 1, 2, 2, 3])
+    main = rng.choice(REPEAT_SIGS)
+    vals = rng.sample([v for v in values if v % 6 == 0] or values, 2) if rng.random() < 0.8 else [rng.choice(values)] * 2
+    vels = rng.sample([1, 30, 64, 100, 127], 2)
+    if rng.random() < 0.35:
+        plan = "".join(rng.choice("ABCE") for _ in range(rng.randint(3, 6)))
+    else:
+        plan = rng.choice(REPEAT_PLANS)
+    templates = {}
+    for letter in sorted(set(plan)):
+        sig = main if (letter == "E" or rng.random() < 0.8) else rng.choice(REPEAT_SIGS)
+        length = ppqn * 4 * sig[0] // sig[1]
+        per_track = []
+        for ti in range(n_tracks):
+            notes = []
+            if letter != "E":
+                for _ in range(rng.choice([0, 1, 1, 2, 2, 3])):
+                    dur = rng.choice(vals)
+                    if dur > length:
+                        continue
+                    on = rng.randrange(0, (length - dur) // 6 + 1) * 6
+                    p = rng.randint(pitch_range[0], pitch_range[1])
+                    if any(x[0] == p and not (on + dur <= x[1] or x[1] + x[2] <= on) for x in notes):
+                        continue
+                    notes.append((p, on, dur, rng.choice(vels)))
+            per_track.append(notes)
+        if letter != "E" and not any(per_track):
+            per_track[rng.randrange(n_tracks)].append((rng.randint(pitch_range[0], pitch_range[1]), 0, min(vals), rng.choice(vels)))
+        templates[letter] = (sig, length, per_track)
+    bars, sigs, sig_of_bar, t, cur = [], [], [], 0, None
+    for letter in plan:
+        sig, length, _ = templates[letter]
+        if sig != cur:
+            sigs.append((t, sig[0], sig[1]))
+            cur = sig
+        bars.append((t, length, sig[0], sig[1]))
+        sig_of_bar.append(sig)
+        t += length
+    total = t
+    tracks, notes_all = [], []
+    for ti in range(n_tracks):
+        notes = [(p, start + on, dur, v) for letter, (start, _, _, _) in zip(plan, bars) for (p, on, dur, v) in templates[letter][2][ti]]
+        extras = [pm(TIMESIG, 0, tick, num=n, den=d) for (tick, n, d) in sigs] if ti == 0 else []
+        a = G.notes_to_abs([(0, p, on, dur, v) for (p, on, dur, v) in notes], extras, cap=total if rng.random() < 0.6 else None)
+        tracks.append(G.abs_to_rel(a))
+        notes_all.append(sorted(notes, key=lambda x: (x[1], x[0])))
+    return {"tracks": tracks, "notes": notes_all, "bars": bars, "sigs": sigs, "total": total, "plan": plan, "sig_of_bar": sig_of_bar}
+
+
+def repeated_calls(piece, cuts):
+    """the calls of the partition `cuts` that have IDENTICAL content to an earlier call of the same partition AND start under the same carried
+    signature (plain data: same template letters, same signature in force before the call): [(earlier call index, later call index, do the
+    attributes (track, value, velocity) of the last note before the two calls differ)].  The last note before a call = the note with the
+    greatest (onset, track) among the bars before it (None at the start of the piece)."""
+    plan, nb = piece["plan"], len(piece["plan"])
+    bounds = [0] + sorted({c for c in cuts if 0 < c < nb}) + [nb]
+    calls = list(zip(bounds, bounds[1:]))
+
+    def carried(lo):
+        if lo == 0:
+            return None
+        edge = piece["bars"][lo][0]
+        cand = [(on, ti, dur, v) for ti, ns in enumerate(piece["notes"]) for (p, on, dur, v) in ns if on < edge]
+        if not cand:
+            return None
+        on, ti, dur, v = max(cand)
+        return (ti, dur, v)
+
+    out = []
+    for j, (lo, hi) in enumerate(calls):
+        for i, (lo0, hi0) in enumerate(calls[:j]):
+            same_sig = (piece["sig_of_bar"][lo0 - 1] if lo0 else None) == (piece["sig_of_bar"][lo - 1] if lo else None)
+            if plan[lo0:hi0] == plan[lo:hi] and same_sig and lo0 > 0:
+                out.append((i, j, carried(lo0) != carried(lo)))
+                break
+    return out
+
+
+def unfused_running(kw):
+    """does the configuration (TkCfg keywords) write at least one attribute as a token of its own under running values — the configurations
+    in which a call's tokens depend on the attributes carried into it"""
+    if not kw.get("running", True):
+        return False
+    return (not kw.get("fuse_value", True)) or (not kw.get("fuse_velocity", True) and kw.get("velocity_bins", 1) > 1) \
+        or (not kw.get("fuse_track", True) and kw.get("num_tracks", 1) > 1)
